@@ -141,6 +141,31 @@ theorem configurePool_ok' (s : State) (ps : List Pool)
       · show (Tbl.keys (dropAll _ _).store).Nodup
         rw [d.2.1]; exact Tbl.nodup_keys_dedup _
 
+theorem dropAll_admin : ∀ (l : List IP) (s : State), (dropAll s l).admin = s.admin := by
+  intro l
+  induction l with
+  | nil => intro s; rfl
+  | cons ip t ih =>
+    intro s
+    unfold dropAll
+    split
+    · exact ih _
+    · exact ih _
+
+/-- a successful `ConfigurePool` forgets the reservations on addresses that are no longer configured -/
+theorem configurePool_admin (s : State) (ps : List Pool) (hok : (configurePool s ps).2 = true) (j : IP) :
+    Tbl.get (configurePool s ps).1.admin j = if configured ps j then Tbl.get s.admin j else none := by
+  revert hok
+  unfold configurePool
+  dsimp only
+  split
+  · intro h; cases h
+  · intro _
+    show Tbl.get (dropAll _ _).admin j = _
+    rw [dropAll_admin]
+    show Tbl.get (List.filter (fun e => configured (sortPools ps) e.1) s.admin) j = _
+    rw [Tbl.get_filter_key s.admin (fun k => configured (sortPools ps) k) j, configured_sortPools]
+
 /-- earlier signature (the two hypotheses are no longer needed), kept so that callers need no change -/
 theorem configurePool_ok (s : State) (ps : List Pool) (_h : Coherent s) (_hsp : s.fault = 0 ∨ s.fault ≤ s.calls + 1)
     (hok : (configurePool s ps).2 = true) : Reconfigured s (configurePool s ps).1 ps := configurePool_ok' s ps hok
